@@ -108,6 +108,18 @@ func C08(o *world.Obs) *Result {
 				val, inm, ims, tok, tok, SummarizeExchange(o, ex))
 		}
 	}
+	// a validation is a question about the resource the client asked for: the request sent
+	// upstream is the client's request plus the conditional fields
+	for _, ex := range o.Exchanges {
+		if !IsPlainGET(ex.Req) {
+			continue
+		}
+		for _, c := range o.CallsOf(ex.Idx) {
+			if d := upstreamRequestOK(ex, c); d != "" {
+				r.Fail("C08", "validation-request-altered", ex.Idx, "upstream call s%d differs from the client's request: %s; %s", c.Serial, d, SummarizeExchange(o, ex))
+			}
+		}
+	}
 	// the response of the validating exchange itself is the freshened stored response: every
 	// stored field is still there, the 304's fields have replaced their namesakes
 	for _, ex := range o.Exchanges {
